@@ -1,6 +1,6 @@
 (* C10 -- the ternary encoding computes Kleene three-valued simulation.  Statements only; proofs in Proofs/TernaryProofs.v. *)
 From stdpp Require Import strings gmap sets.
-From CG Require Import Base.Cases Base.Oracle Model.Lint Model.Ternary Proofs.TernaryProofs.
+From CG Require Import Base.Cases Base.Oracle Model.Lint Model.Ternary Proofs.TernaryProofs Proofs.TernaryNames Proofs.TernaryModelProofs.
 Open Scope string_scope.
 
 (* obligation on the regenerated table of tx.ternary: branch tests and the gate types of companions and helpers are
@@ -74,19 +74,40 @@ Theorem C10_completion : ∀ c R μ (v w : val), tern_shape c R μ → closed c 
 Proof. exact tern_shape_completion. Qed.
 Print Assumptions C10_completion.
 
-(* ---- the model of tx.ternary ---- *)
-(* full statement (DESIGN.md appendix C); NOT proved as a whole *)
-Definition C10_ternary_full : Prop := ∀ C nodes fo R μ,
-  lint_clean C → bb_free C → no_x (c_g C) → ternary C nodes fo = Ok (R, μ) →
-  dom μ = dom (c_g C) ∧ c_g C ⊆ c_g R ∧ lint_clean R ∧
-  inputs (c_g R) = inputs (c_g C) ∪ set_map (mu_at μ) (inputs (c_g C)) ∧
+(* ---- the model of tx.ternary itself (no structural hypothesis): for every lint-clean C whose graph is closed (the networkx
+   invariant "edge endpoints are nodes"), every recorded node order and fan-in orders, if the model returns (R, μ)
+   [it returns Ok exactly when C has no blackbox and every node type is one of the eleven handled ones], then R contains c
+   unchanged, μ has one companion per node, every node has its companion gadget, and EVERY consistent valuation of R reads as a
+   Kleene-consistent valuation of c: mapping[n] = 1 exactly where Kleene evaluation gives X, the Kleene value at n elsewhere.
+   Proof: invariant of the sequential construction (uid freshness through the fold, companion names injective and never equal
+   to a helper name, non-placeholder entries never change) + the per-family lemmas above. ---- *)
+Theorem C10_ternary : ∀ C nodes fo R μ, lint_clean C → closed (c_g C) → ternary C nodes fo = Ok (R, μ) →
+  dom μ = dom (c_g C) ∧ c_g C ⊆ c_g R ∧
+  (∀ n i, c_g C !! n = Some i → comp_ok (c_g R) (mu_name (c_g C)) n i) ∧
   ∀ v, consistent (c_g R) v → kconsistent (c_g C) (kof μ v).
-(* the missing link: the sequential construction (uid-named helpers, placeholder companions, redefinition) always ends
-   in the gadget structure.  Needs freshness of every uid name and that helper names never equal companion names
-   (a suffix argument on strings).  Decided per generated case by `shapeb` in Run_C10.agree. *)
-Definition C10_model_shape_full : Prop := ∀ C nodes fo R μ,
-  lint_clean C → ternary C nodes fo = Ok (R, μ) → tern_shape (c_g C) (c_g R) μ.
-(* proved: everything except the link and lint_clean R, for every recorded order *)
+Proof. exact model_kleene. Qed.
+Print Assumptions C10_ternary.
+(* corollary on acyclic C: whenever mapping[n] is 0, n has the value it has in c under every completion of the X inputs *)
+Theorem C10_ternary_completion : ∀ C nodes fo R μ (v w : val), lint_clean C → closed (c_g C) → ternary C nodes fo = Ok (R, μ) →
+  acyclic (c_g C) → only_inputs_free (c_g C) → consistent (c_g R) v → consistent (c_g C) w →
+  (∀ i, i ∈ inputs (c_g C) → v (mu_at μ i) = false → w i = v i) →
+  ∀ n, n ∈ dom (c_g C) → v (mu_at μ n) = false → w n = v n.
+Proof. exact model_completion. Qed.
+Print Assumptions C10_ternary_completion.
+(* the names: uid is fresh; companion names determine their node and never equal a helper name *)
+Theorem C10_names : (∀ c n, uid c n ∉ dom c) ∧ (∀ U U' n n', uid_in U (n ++ "_X") = uid_in U' (n' ++ "_X") → n = n') ∧
+  (∀ x s U U' n, s ∈ helper_suffixes → uid_in U (x ++ s) ≠ uid_in U' (n ++ "_X")).
+Proof. split; [exact uid_fresh|split; [exact comp_name_inj|exact helper_ne_comp]]. Qed.
+Print Assumptions C10_names.
+
+(* still NOT proved (kept visible): the result is lint-clean and has no other inputs than those of c and their companions.
+   The loop invariant (Inv, clause 4: every node of R is a node of c, a companion, or a helper with type Or/Nor/And/Not, a
+   non-empty fan-in and no dot in its name) contains what is needed; the derivation of lint_clean R from it is not done.
+   Both clauses are decided per generated case by the oracle (lint_cleanb R, input-set equality in `holds`). *)
+Definition C10_ternary_full : Prop := ∀ C nodes fo R μ,
+  lint_clean C → closed (c_g C) → ternary C nodes fo = Ok (R, μ) →
+  lint_clean R ∧ inputs (c_g R) = inputs (c_g C) ∪ set_map (mu_at μ) (inputs (c_g C)) ∧ tern_shape (c_g C) (c_g R) μ.
+(* proved under the decidable structure predicate tern_shape (which includes the input-set clause) *)
 Theorem C10_ternary_partial : ∀ C nodes fo R μ, ternary C nodes fo = Ok (R, μ) →
   bb_free C ∧ bb_free R ∧ μ = mapping (c_g C) ∧ dom μ = dom (c_g C) ∧
   (tern_shape (c_g C) (c_g R) μ →
